@@ -5,6 +5,12 @@ package main
 import (
 	"bytes"
 	"context"
+	"crypto/ecdsa"
+	"crypto/elliptic"
+	crand "crypto/rand"
+	"crypto/tls"
+	"crypto/x509"
+	"crypto/x509/pkix"
 	"encoding/binary"
 	"encoding/json"
 	"errors"
@@ -12,6 +18,7 @@ import (
 	"io"
 	"log/slog"
 	"math"
+	"math/big"
 	"math/rand/v2"
 	"net"
 	"os"
@@ -53,6 +60,8 @@ func main() {
 	counterCampaign(o, r, m)
 	witnessCampaign(r, m)
 	limiterCampaign(o, r, m)
+	windowCampaign(o, r, m)
+	stormCampaign(o, r)
 	concurrentCloseCampaign(o, r)
 	pipelineCampaign(o, r, m)
 
@@ -140,6 +149,8 @@ type fakeListener struct {
 	blocked    int
 	afterClose int
 	closes     int
+	// closeErr makes Close fail (after closing), as a real listener may.
+	closeErr bool
 }
 
 func newFakeListener() *fakeListener { return &fakeListener{ch: make(chan acceptResult)} }
@@ -166,8 +177,31 @@ func (f *fakeListener) Close() error {
 	defer f.mu.Unlock()
 	f.closed = true
 	f.closes++
+	if f.closeErr {
+		return errFakeClose
+	}
 
 	return nil
+}
+
+func (f *fakeListener) setCloseErr() {
+	f.mu.Lock()
+	defer f.mu.Unlock()
+	f.closeErr = true
+}
+
+// fakeListenConfig is the netext.ListenConfig that connlimiter.ListenConfig
+// wraps; Listen hands out the fake listener set in next.
+type fakeListenConfig struct {
+	next *fakeListener
+}
+
+func (c *fakeListenConfig) Listen(_ context.Context, _, _ string) (net.Listener, error) {
+	return c.next, nil
+}
+
+func (c *fakeListenConfig) ListenPacket(_ context.Context, _, _ string) (net.PacketConn, error) {
+	return nil, errors.New("c18: no packet conns")
 }
 
 func (f *fakeListener) Addr() net.Addr { return fakeAddr("fake-listener") }
@@ -194,11 +228,20 @@ func (a fakeAddr) String() string  { return string(a) }
 
 type fakeConn struct {
 	closes atomic.Int32
+	// failClose makes Close return an error, as a real connection may.
+	failClose atomic.Bool
 }
 
-func (c *fakeConn) Read(b []byte) (int, error)         { return 0, io.EOF }
-func (c *fakeConn) Write(b []byte) (int, error)        { return len(b), nil }
-func (c *fakeConn) Close() error                       { c.closes.Add(1); return nil }
+func (c *fakeConn) Read(b []byte) (int, error)  { return 0, io.EOF }
+func (c *fakeConn) Write(b []byte) (int, error) { return len(b), nil }
+func (c *fakeConn) Close() error {
+	c.closes.Add(1)
+	if c.failClose.Load() {
+		return errFakeClose
+	}
+
+	return nil
+}
 func (c *fakeConn) LocalAddr() net.Addr                { return fakeAddr("local") }
 func (c *fakeConn) RemoteAddr() net.Addr               { return fakeAddr("remote") }
 func (c *fakeConn) SetDeadline(t time.Time) error      { return nil }
@@ -206,6 +249,15 @@ func (c *fakeConn) SetReadDeadline(t time.Time) error  { return nil }
 func (c *fakeConn) SetWriteDeadline(t time.Time) error { return nil }
 
 var errFakeAccept = errors.New("fake accept failure")
+var errFakeClose = errors.New("fake close failure")
+
+// timeoutErr is a net.Error that reports a timeout, like the error of an
+// Accept whose deadline has passed.
+type timeoutErr struct{}
+
+func (timeoutErr) Error() string   { return "fake accept timeout" }
+func (timeoutErr) Timeout() bool   { return true }
+func (timeoutErr) Temporary() bool { return true }
 
 // ---------------------------------------------------------------------------
 // The world: one real Limiter, several limited fake listeners.
@@ -216,6 +268,29 @@ type lop struct {
 }
 
 func (o lop) String() string { return fmt.Sprintf("%s %d", o.Kind, o.Arg) }
+
+// model is the model's op line: the three kinds of inner Accept errors are one
+// scheduler choice there.
+func (o lop) model() string {
+	switch o.Kind {
+	case "failc", "failt":
+		return fmt.Sprintf("fail %d", o.Arg)
+	}
+
+	return o.String()
+}
+
+// acceptErr is the error the inner Accept returns for a fail op.
+func (o lop) acceptErr() error {
+	switch o.Kind {
+	case "failc":
+		return net.ErrClosed
+	case "failt":
+		return timeoutErr{}
+	}
+
+	return errFakeAccept
+}
 
 type world struct {
 	stop, resume uint64
@@ -231,6 +306,9 @@ type world struct {
 	newConns  []net.Conn
 
 	conns      []net.Conn // in hand-out order; index = model conn id
+	inner      []*fakeConn
+	lastFake   *fakeConn
+	hook       *hookHandler
 	connLsn    []int
 	closedOnce []bool
 	lclosed    []bool
@@ -257,20 +335,65 @@ type world struct {
 // good; the limiter campaigns stop early when there are too many of them.
 var abandoned int
 
-var discardLogger = slog.New(slog.NewTextHandler(io.Discard, &slog.HandlerOptions{Level: slog.LevelError}))
+// hookHandler is the slog.Handler given to the limiter.  The limiter logs
+// "accept waiting" inside limitListener.increment between the loop test and
+// counterCond.Wait(), with the lock held: the one place where a wake-up that
+// does not take the lock would be lost.  When armed, the handler runs an action
+// in a new goroutine at exactly that point and gives it time to finish; with
+// correct locking the action simply blocks until Wait releases the lock.
+type hookHandler struct {
+	armed atomic.Pointer[func()]
+	fired atomic.Int64
+}
+
+func (h *hookHandler) Enabled(context.Context, slog.Level) bool { return true }
+func (h *hookHandler) WithAttrs([]slog.Attr) slog.Handler       { return h }
+func (h *hookHandler) WithGroup(string) slog.Handler            { return h }
+
+func (h *hookHandler) Handle(_ context.Context, rec slog.Record) error {
+	if rec.Message != "accept waiting" {
+		return nil
+	}
+	if f := h.armed.Swap(nil); f != nil {
+		h.fired.Add(1)
+		done := make(chan struct{})
+		go func() {
+			defer close(done)
+			(*f)()
+		}()
+		select {
+		case <-done:
+		case <-time.After(3 * time.Millisecond):
+		}
+	}
+
+	return nil
+}
 
 func newWorld(stop, resume uint64, nl int) (w *world, err error) {
-	lim, err := connlimiter.New(&connlimiter.Config{Logger: discardLogger, Stop: stop, Resume: resume})
+	hook := &hookHandler{}
+	lim, err := connlimiter.New(&connlimiter.Config{Logger: slog.New(hook), Stop: stop, Resume: resume})
 	if err != nil {
 		return nil, err
 	}
-	w = &world{stop: stop, resume: resume, lim: lim}
+	w = &world{stop: stop, resume: resume, lim: lim, hook: hook}
+	// The listeners are made the way dnssvc makes them: through the limiter's
+	// ListenConfig, with the server info in the context.
+	flc := &fakeListenConfig{}
+	lc := connlimiter.NewListenConfig(flc, lim)
 	for i := 0; i < nl; i++ {
 		f := newFakeListener()
 		w.fakes = append(w.fakes, f)
-		w.lsn = append(w.lsn, lim.Limit(f, &dnsserver.ServerInfo{
+		flc.next = f
+		ctx := dnsserver.ContextWithServerInfo(context.Background(), &dnsserver.ServerInfo{
 			Name: fmt.Sprintf("c18-%d", i), Addr: "fake", Proto: dnsserver.ProtoDNS,
-		}))
+		})
+		var l net.Listener
+		l, err = lc.Listen(ctx, "tcp", "fake")
+		if err != nil {
+			return nil, fmt.Errorf("limited listen: %w", err)
+		}
+		w.lsn = append(w.lsn, l)
 	}
 	w.spawned = make([]int, nl)
 	w.retConn = make([]int, nl)
@@ -506,24 +629,35 @@ func runLimCase(c *limCase, next func(w *world, s snap, step int) (lop, bool)) (
 			}
 			w.spawn(l)
 		case "deliver":
-			if l < c.NL && before.pending[l] > 0 && !w.lclosed[l] {
-				w.fakes[l].resolve(acceptResult{conn: &fakeConn{}})
-				out = "conn"
-			}
-		case "fail":
+			// Also on a closed listener: the inner Accept runs outside the
+			// limiter's lock and may return a connection that raced the Close.
 			if l < c.NL && before.pending[l] > 0 {
-				w.fakes[l].resolve(acceptResult{err: errFakeAccept})
+				w.lastFake = &fakeConn{}
+				w.fakes[l].resolve(acceptResult{conn: w.lastFake})
+				out = "conn"
+				if w.lclosed[l] {
+					oc.buckets = append(oc.buckets, "limiter.op.deliver_after_lclose")
+				}
+			}
+		case "fail", "failc", "failt":
+			if l < c.NL && before.pending[l] > 0 {
+				w.fakes[l].resolve(acceptResult{err: op.acceptErr()})
 				out = "ok"
 				decs, wakes = 1, true
 			}
-		case "close":
+		case "close", "closee":
 			if l < len(w.conns) {
+				if op.Kind == "closee" {
+					w.inner[l].failClose.Store(true)
+				}
 				err = w.conns[l].Close()
 				switch {
 				case err == nil:
 					out = "ok"
 				case errors.Is(err, net.ErrClosed):
 					out = "errclosed"
+				case errors.Is(err, errFakeClose):
+					out = "innererr"
 				default:
 					out = "err:" + err.Error()
 				}
@@ -536,11 +670,14 @@ func runLimCase(c *limCase, next func(w *world, s snap, step int) (lop, bool)) (
 			} else {
 				out = "errclosed"
 			}
-		case "lclose":
+		case "lclose", "lclosee":
 			if l >= c.NL {
 				out = "bad"
 
 				break
+			}
+			if op.Kind == "lclosee" {
+				w.fakes[l].setCloseErr()
 			}
 			err = w.lsn[l].Close()
 			switch {
@@ -548,6 +685,8 @@ func runLimCase(c *limCase, next func(w *world, s snap, step int) (lop, bool)) (
 				out = "ok"
 			case errors.Is(err, net.ErrClosed):
 				out = "errclosed"
+			case errors.Is(err, errFakeClose):
+				out = "innererr"
 			default:
 				out = "err:" + err.Error()
 			}
@@ -575,10 +714,15 @@ func runLimCase(c *limCase, next func(w *world, s snap, step int) (lop, bool)) (
 			closedNow[i] = after.retClos[i] - before.retClos[i]
 		}
 		switch op.Kind {
-		case "deliver", "fail":
+		case "deliver", "fail", "failc", "failt":
 			if out != "none" {
 				passed[l]++
 			}
+		}
+		if op.Kind == "failc" && out != "none" {
+			// The acceptor whose inner Accept failed with net.ErrClosed returned
+			// just that; it is not one that the limiter turned away.
+			closedNow[l]--
 		}
 		if op.Kind == "deliver" && out == "conn" {
 			out = fmt.Sprintf("conn %d", len(w.conns)-1)
@@ -602,7 +746,7 @@ func runLimCase(c *limCase, next func(w *world, s snap, step int) (lop, bool)) (
 				w.oracleAdmit(oc, before.n(), 1, op, step)
 			}
 		}
-		oc.lines = append(oc.lines, op.String())
+		oc.lines = append(oc.lines, op.model())
 		oc.want = append(oc.want, out)
 
 		// --- the property oracle (tally based) -----------------------------
@@ -661,7 +805,7 @@ func runLimCase(c *limCase, next func(w *world, s snap, step int) (lop, bool)) (
 			}
 		}
 		// --- model lines for the wake-ups, schedule taken from observation --
-		if wakes && (out == "ok") {
+		if wakes && (out == "ok" || out == "innererr") {
 			for i := 0; i < nl; i++ {
 				for k := 0; k < passed[i]; k++ {
 					oc.lines = append(oc.lines, fmt.Sprintf("recheck %d", i))
@@ -721,6 +865,7 @@ func (w *world) collectConns(op lop) {
 	defer w.mu.Unlock()
 	for _, c := range w.newConns {
 		w.conns = append(w.conns, c)
+		w.inner = append(w.inner, w.lastFake)
 		w.connLsn = append(w.connLsn, op.Arg)
 		w.closedOnce = append(w.closedOnce, false)
 	}
@@ -831,6 +976,21 @@ func witnessCampaign(r *hlib.Result, m *hlib.Model) {
 	checkLimCase(r, m, &limCase{Stop: 2, Resume: 0, NL: 2, Ops: []lop{
 		A(0), D(0), A(1), D(1), A(0), A(1), C(0), C(0), C(0), C(1), C(1), {"lclose", 1}, {"lclose", 1}, A(1),
 	}}, nil, "limiter.witness")
+	// Errors of the wrapped objects: a connection whose own Close fails still
+	// gives its slot back (once); a listener whose own Close fails is closed
+	// and its waiters are released; an inner Accept that fails with
+	// net.ErrClosed or a timeout gives the slot back.
+	checkLimCase(r, m, &limCase{Stop: 1, Resume: 0, NL: 2, Ops: []lop{
+		A(0), D(0), A(1), A(1), {"closee", 0}, {"closee", 0}, D(1), A(0), {"lclosee", 0}, {"lclosee", 0}, C(1), A(0),
+	}}, nil, "limiter.witness")
+	checkLimCase(r, m, &limCase{Stop: 2, Resume: 1, NL: 2, Ops: []lop{
+		A(0), A(1), A(1), {"failc", 0}, {"failt", 1}, {"lclose", 1}, {"failc", 1}, A(0), A(0), A(0),
+	}}, nil, "limiter.witness")
+	// A connection delivered by the inner Accept while the listener is being
+	// closed counts like any other.
+	checkLimCase(r, m, &limCase{Stop: 2, Resume: 0, NL: 2, Ops: []lop{
+		A(0), A(0), A(1), {"lclose", 0}, D(0), D(0), A(1), C(0), C(1), C(0),
+	}}, nil, "limiter.witness")
 	// Bad configurations.
 	for _, sr := range [][2]uint64{{0, 0}, {1, 2}, {0, 1}, {math.MaxUint64, math.MaxUint64}, {2, 0}} {
 		checkLimCase(r, m, &limCase{Stop: sr[0], Resume: sr[1], NL: 1, Ops: []lop{A(0), D(0), C(0)}}, nil, "limiter.config")
@@ -868,10 +1028,18 @@ func genNext(rng *rand.Rand, length int, nl int) func(w *world, s snap, step int
 					continue
 				}
 
+				if rng.IntN(5) == 0 {
+					return lop{"closee", k}, true
+				}
+
 				return lop{"close", k}, true
 			case x < wAccept+wClose+wLclose:
 				if rng.IntN(4) > 0 {
 					continue
+				}
+
+				if rng.IntN(3) == 0 {
+					return lop{"lclosee", rng.IntN(nl)}, true
 				}
 
 				return lop{"lclose", rng.IntN(nl)}, true
@@ -881,10 +1049,10 @@ func genNext(rng *rand.Rand, length int, nl int) func(w *world, s snap, step int
 					continue
 				}
 
-				return lop{"fail", l}, true
+				return lop{[]string{"fail", "fail", "failc", "failt"}[rng.IntN(4)], l}, true
 			default:
 				l := rng.IntN(nl)
-				if (s.pending[l] == 0 || w.lclosed[l]) && rng.IntN(8) > 0 {
+				if s.pending[l] == 0 && rng.IntN(8) > 0 {
 					continue
 				}
 
@@ -978,10 +1146,21 @@ func shrinkAndReport(r *hlib.Result, c *limCase) {
 // exhaustive enumerates every script of a given length over a small alphabet
 // (two listeners): length 5 for all 1 <= stop <= 3, 0 <= resume <= stop.
 func exhaustive(r *hlib.Result, m *hlib.Model) {
-	alphabet := []lop{
+	exhaustiveOver(r, m, []lop{
 		{"accept", 0}, {"accept", 1}, {"deliver", 0}, {"deliver", 1}, {"close", 0}, {"close", 1},
 		{"fail", 0}, {"lclose", 0},
-	}
+	}, 5)
+	// The same with the wrapped objects failing: Close errors of connection and
+	// listener, the inner Accept failing with net.ErrClosed, a listener closed
+	// under a pending accept that still delivers.
+	exhaustiveOver(r, m, []lop{
+		{"accept", 0}, {"accept", 1}, {"deliver", 0}, {"deliver", 1}, {"closee", 0}, {"close", 0},
+		{"failc", 1}, {"lclosee", 0}, {"lclose", 1},
+	}, 5)
+	r.Exhaustive = true
+}
+
+func exhaustiveOver(r *hlib.Result, m *hlib.Model, alphabet []lop, length int) {
 	type scope struct {
 		stop, resume uint64
 		length       int
@@ -989,7 +1168,7 @@ func exhaustive(r *hlib.Result, m *hlib.Model) {
 	var scopes []scope
 	for stop := uint64(1); stop <= 3; stop++ {
 		for resume := uint64(0); resume <= stop; resume++ {
-			scopes = append(scopes, scope{stop, resume, 5})
+			scopes = append(scopes, scope{stop, resume, length})
 		}
 	}
 	cases := 0
@@ -1007,7 +1186,7 @@ func exhaustive(r *hlib.Result, m *hlib.Model) {
 			}
 			// A script that starts with an op that cannot be enabled in the
 			// initial state behaves like its suffix, which is enumerated too.
-			if ops[0].Kind != "accept" && ops[0].Kind != "lclose" {
+			if ops[0].Kind != "accept" && ops[0].Kind != "lclose" && ops[0].Kind != "lclosee" {
 				continue
 			}
 			checkLimCase(r, m, &limCase{Stop: sc.stop, Resume: sc.resume, NL: 2, Ops: ops}, nil, "limiter.exhaustive")
@@ -1017,11 +1196,404 @@ func exhaustive(r *hlib.Result, m *hlib.Model) {
 			}
 		}
 	}
-	r.Exhaustive = true
+	var names []string
+	for _, a := range alphabet {
+		names = append(names, a.String())
+	}
 	r.Notes = append(r.Notes, fmt.Sprintf(
-		"limiter.exhaustive: all %d scripts over %d ops (2 listeners) starting with accept/lclose: length 5 for every "+
+		"limiter.exhaustive: all %d scripts over the %d ops {%s} (2 listeners) starting with accept/lclose: length %d for every "+
 			"1 <= stop <= 3, 0 <= resume <= stop; the goroutine schedule inside one op is "+
-			"the Go runtime's", cases, len(alphabet)))
+			"the Go runtime's", cases, len(alphabet), strings.Join(names, ", "), length))
+}
+
+// ---------------------------------------------------------------------------
+// Wake-ups issued inside the window between the loop test and Wait.
+
+// winCase is one scenario: the limiter is filled to stop through listener 0,
+// Pre acceptors are parked on listener 1, then one more Accept on listener 1
+// is started and, while it is between its loop test and counterCond.Wait (the
+// limiter's "accept waiting" log call), Action is carried out by another
+// goroutine.  With correct locking this is the same as doing Action right
+// after the acceptor has parked.
+type winCase struct {
+	Stop   uint64 `json:"stop"`
+	Resume uint64 `json:"resume"`
+	Pre    int    `json:"pre"`
+	Action string `json:"action"` // lclose | close | lclose+close
+}
+
+// finalOracle checks, on a quiescent state and from observation only, what
+// must hold after every schedule.
+func finalOracle(w *world, s snap) (viol []hlib.Finding) {
+	n := s.n()
+	add := func(sig, what string) { viol = append(viol, hlib.Finding{Signature: sig, What: what}) }
+	if uint64(n) > w.stop {
+		add("bound-exceeded", fmt.Sprintf("%d open connections + %d pending accepts > stop %d", s.open, n-s.open, w.stop))
+	}
+	if s.cur != uint64(n) {
+		sig := "counter-below-open-plus-pending"
+		if s.cur > uint64(n) {
+			sig = "counter-above-open-plus-pending"
+		}
+		add(sig, fmt.Sprintf("counter.current = %d but open connections + pending accepts = %d (stop %d resume %d)",
+			s.cur, n, w.stop, w.resume))
+	}
+	for i := range s.waiting {
+		if w.lclosed[i] && s.waiting[i] > 0 {
+			add("closed-listener-waiter-not-released", fmt.Sprintf(
+				"listener %d is closed but %d of its Accept calls are still blocked in the limiter", i, s.waiting[i]))
+		}
+		if !w.lclosed[i] && s.waiting[i] > 0 && uint64(n) < w.stop && uint64(n) <= w.resume {
+			add("waiter-stuck-while-limiter-should-accept", fmt.Sprintf(
+				"%d Accept call(s) on open listener %d stay blocked although only %d of stop=%d slots are in use "+
+					"and the count is at or below resume=%d", s.waiting[i], i, n, w.stop, w.resume))
+		}
+	}
+
+	return viol
+}
+
+func runWindowCase(r *hlib.Result, m *hlib.Model, c *winCase) {
+	replay := map[string]any{"campaign": "window", "win": c}
+	w, err := newWorld(c.Stop, c.Resume, 2)
+	hlib.Must(err)
+	defer w.drain()
+	lines := []string{fmt.Sprintf("new b 1 %d %d", c.Stop, c.Resume)}
+	for k := uint64(0); k < c.Stop; k++ {
+		w.spawn(0)
+		w.quiesce()
+		w.lastFake = &fakeConn{}
+		w.fakes[0].resolve(acceptResult{conn: w.lastFake})
+		w.quiesce()
+		w.collectConns(lop{"deliver", 0})
+		lines = append(lines, "accept 0", "deliver 0")
+	}
+	for k := 0; k < c.Pre; k++ {
+		w.spawn(1)
+		w.quiesce()
+		lines = append(lines, "accept 1")
+	}
+	var act func()
+	switch c.Action {
+	case "lclose":
+		act = func() { _ = w.lsn[1].Close() }
+		lines = append(lines, "accept 1", "lclose 1")
+	case "close":
+		act = func() { _ = w.conns[0].Close() }
+		lines = append(lines, "accept 1", "close 0")
+	default:
+		act = func() { _ = w.lsn[1].Close(); _ = w.conns[0].Close() }
+		lines = append(lines, "accept 1", "lclose 1", "close 0")
+	}
+	actDone := make(chan struct{})
+	armed := func() {
+		defer close(actDone)
+		act()
+	}
+	w.hook.armed.Store(&armed)
+	w.spawn(1)
+	fired := false
+	for i := 0; ; i++ {
+		if w.hook.fired.Load() > 0 {
+			fired = true
+
+			break
+		}
+		if w.allParked() {
+			// The acceptor parked (or went through) without the limiter's
+			// "accept waiting" message: do the action now.
+			if w.hook.armed.Swap(nil) != nil {
+				armed()
+			} else {
+				fired = true
+			}
+
+			break
+		}
+		if i > 20 {
+			time.Sleep(50 * time.Microsecond)
+		} else {
+			runtime.Gosched()
+		}
+	}
+	select {
+	case <-actDone:
+	case <-time.After(20 * time.Second):
+		r.Disagree("window", "the action started inside the accept-waiting window never finished", replay)
+
+		return
+	}
+	if c.Action != "close" {
+		w.lclosed[1] = true
+	}
+	if c.Action != "lclose" {
+		w.closedOnce[0] = true
+	}
+	w.quiesce()
+	w.collectConns(lop{"accept", 1})
+	after := w.snapshot()
+	for _, v := range finalOracle(w, after) {
+		r.Violate(v.Signature, fmt.Sprintf("%s issued while an Accept on listener 1 was between its loop test and Wait "+
+			"(stop %d, resume %d, %d acceptors already parked): %s", c.Action, c.Stop, c.Resume, c.Pre, v.What), replay)
+	}
+	// Correspondence: same as the sequential script; the acceptors of listener
+	// 1 are interchangeable, so the final state does not depend on the order of
+	// their re-checks.
+	for k := 0; k <= c.Pre; k++ {
+		lines = append(lines, "recheck 1")
+	}
+	lines = append(lines, "state 2")
+	fields := strings.Fields(after.String())
+	for i := 0; i < 2; i++ {
+		fields[3+i] += ",c=" + b2s(w.lclosed[i])
+	}
+	want := strings.Join(fields, " ")
+	m.ResetLog()
+	ans := m.Batch(lines)
+	r.ModelOps += len(lines)
+	if got := ans[len(ans)-1]; got != want {
+		r.Disagree("window", fmt.Sprintf("final state: real %q, model %q", want, got),
+			map[string]any{"campaign": "window", "win": c, "model_lines": truncate(lines, 60)})
+	}
+	canon, _ := json.Marshal(c)
+	r.Case("window;"+string(canon), true)
+	r.Traces++
+	r.Count("window.cases")
+	r.Count("window.action=" + c.Action)
+	if fired {
+		r.Count("window.hook_fired")
+	} else {
+		r.Count("window.hook_not_fired")
+	}
+}
+
+func windowCampaign(o *hlib.Opts, r *hlib.Result, m *hlib.Model) {
+	actions := []string{"lclose", "close", "lclose+close"}
+	if o.Thorough() {
+		// Every scenario with stop <= 3, 0..2 parked acceptors.
+		for stop := uint64(1); stop <= 3; stop++ {
+			for resume := uint64(0); resume <= stop; resume++ {
+				for pre := 0; pre <= 2; pre++ {
+					for _, a := range actions {
+						for rep := 0; rep < 3; rep++ {
+							runWindowCase(r, m, &winCase{Stop: stop, Resume: resume, Pre: pre, Action: a})
+						}
+					}
+				}
+			}
+		}
+
+		return
+	}
+	rng := o.Rand("window")
+	for i := 0; i < 60; i++ {
+		stop := uint64(1 + rng.IntN(3))
+		runWindowCase(r, m, &winCase{
+			Stop: stop, Resume: uint64(rng.IntN(int(stop) + 1)), Pre: rng.IntN(3), Action: actions[rng.IntN(3)],
+		})
+		if tooManyAbandoned(r) {
+			return
+		}
+	}
+}
+
+// ---------------------------------------------------------------------------
+// Storm: accepts, deliveries, failures, closes (several per connection) and a
+// listener close all running at once, no quiescence in between.  The schedule
+// is the Go runtime's; the oracle only uses what holds after every schedule.
+
+type stormCase struct {
+	Stop    uint64 `json:"stop"`
+	Resume  uint64 `json:"resume"`
+	NL      int    `json:"listeners"`
+	Accepts int    `json:"accepts"`
+	// Keep is the number of connections left open at the end.
+	Keep   int    `json:"keep"`
+	LClose int    `json:"lclose"` // listener closed in the middle, -1: none
+	Seed   uint64 `json:"seed"`
+}
+
+func runStorm(r *hlib.Result, c *stormCase) {
+	replay := map[string]any{"campaign": "storm", "storm": c}
+	rng := rand.New(rand.NewPCG(c.Seed, 18))
+	w, err := newWorld(c.Stop, c.Resume, c.NL)
+	hlib.Must(err)
+	defer w.drain()
+
+	// handed counts connections returned by Accept and not yet passed to
+	// Close: never more than the limiter's own idea of open connections.
+	var handed, maxHanded atomic.Int64
+	var stopDeliver atomic.Bool
+	var closedCount, kept atomic.Int64
+	var wg sync.WaitGroup
+
+	// Deliverer: resolves pending inner accepts, mostly with a connection.
+	wg.Add(1)
+	failEvery := 3 + rng.IntN(6)
+	go func() {
+		defer wg.Done()
+		for i := 0; !stopDeliver.Load(); i++ {
+			busy := false
+			for l, f := range w.fakes {
+				if f.pending() == 0 {
+					continue
+				}
+				busy = true
+				if i%failEvery == 0 {
+					f.resolve(acceptResult{err: lop{[]string{"fail", "failc", "failt"}[i%3], l}.acceptErr()})
+				} else {
+					f.resolve(acceptResult{conn: &fakeConn{}})
+				}
+			}
+			if !busy {
+				runtime.Gosched()
+			}
+		}
+	}()
+	// Closer: closes what Accept hands out, each connection up to three times
+	// from different goroutines, except for Keep of them.
+	var stopClose atomic.Bool
+	var keepConns []net.Conn
+	var cwg sync.WaitGroup
+	crng := rand.New(rand.NewPCG(c.Seed, 19))
+	wg.Add(1)
+	go func() {
+		defer wg.Done()
+		for !stopClose.Load() {
+			w.mu.Lock()
+			fresh := w.newConns
+			w.newConns = nil
+			w.mu.Unlock()
+			if len(fresh) == 0 {
+				runtime.Gosched()
+
+				continue
+			}
+			for _, conn := range fresh {
+				n := handed.Add(1)
+				for {
+					mx := maxHanded.Load()
+					if n <= mx || maxHanded.CompareAndSwap(mx, n) {
+						break
+					}
+				}
+				if int(kept.Load()) < c.Keep && crng.IntN(3) == 0 {
+					kept.Add(1)
+					keepConns = append(keepConns, conn)
+
+					continue
+				}
+				handed.Add(-1)
+				closedCount.Add(1)
+				for k := 1 + crng.IntN(3); k > 0; k-- {
+					cwg.Add(1)
+					go func() {
+						defer cwg.Done()
+						_ = conn.Close()
+					}()
+				}
+			}
+		}
+	}()
+	for i := 0; i < c.Accepts; i++ {
+		w.spawn(rng.IntN(c.NL))
+		if i == c.Accepts/2 && c.LClose >= 0 {
+			cwg.Add(1)
+			go func() {
+				defer cwg.Done()
+				_ = w.lsn[c.LClose].Close()
+			}()
+			w.lclosed[c.LClose] = true
+		}
+		if rng.IntN(4) == 0 {
+			runtime.Gosched()
+		}
+	}
+	// Let it run until nothing moves any more: every acceptor returned or
+	// parked, nothing pending, nothing left to close.
+	settled := waitFor(func() bool {
+		w.mu.Lock()
+		fresh := len(w.newConns)
+		w.mu.Unlock()
+		if fresh > 0 {
+			return false
+		}
+		for _, f := range w.fakes {
+			if f.pending() > 0 {
+				return false
+			}
+		}
+
+		return w.allParked()
+	}, 20*time.Second)
+	stopDeliver.Store(true)
+	stopClose.Store(true)
+	wg.Wait()
+	cwg.Wait()
+	w.quiesce()
+	if !settled {
+		r.Disagree("storm", "the storm did not settle within 20 s", replay)
+
+		return
+	}
+	// Whatever arrived in the very last moment is kept open.
+	w.mu.Lock()
+	keepConns = append(keepConns, w.newConns...)
+	w.newConns = nil
+	w.mu.Unlock()
+	w.conns = keepConns
+	w.closedOnce = make([]bool, len(keepConns))
+	after := w.snapshot()
+	viol := finalOracle(w, after)
+	if mx := maxHanded.Load(); uint64(mx) > c.Stop {
+		viol = append(viol, hlib.Finding{Signature: "bound-exceeded", What: fmt.Sprintf(
+			"%d connections returned by Accept were open at the same time, stop = %d", mx, c.Stop)})
+	}
+	for _, v := range viol {
+		r.Violate(v.Signature, fmt.Sprintf("after a storm of %d concurrent accepts on %d listeners (stop %d, resume %d, "+
+			"%d connections closed, %d kept open): %s", c.Accepts, c.NL, c.Stop, c.Resume, closedCount.Load(), len(keepConns), v.What), replay)
+	}
+	canon, _ := json.Marshal(c)
+	r.Case("storm;"+string(canon), true)
+	r.Count("storm.cases")
+	if sum(after.waiting) > 0 {
+		r.Count("storm.ends_with_waiters")
+	}
+	if after.n() > 0 {
+		r.Count("storm.ends_with_open_or_pending")
+	}
+	if c.LClose >= 0 {
+		r.Count("storm.listener_closed_midway")
+	}
+	// Close the kept connections through the limiter so that drain finds the
+	// world as the scripted campaigns leave it.
+	for _, conn := range keepConns {
+		_ = conn.Close()
+	}
+	w.quiesce()
+}
+
+func stormCampaign(o *hlib.Opts, r *hlib.Result) {
+	rng := o.Rand("storm")
+	n := 150
+	if o.Thorough() {
+		n = 3000
+	}
+	for i := 0; i < n; i++ {
+		stop := uint64(1 + rng.IntN(4))
+		nl := 1 + rng.IntN(3)
+		c := &stormCase{
+			Stop: stop, Resume: uint64(rng.IntN(int(stop) + 1)), NL: nl, Accepts: 4 + rng.IntN(20),
+			Keep: rng.IntN(int(stop) + 1), LClose: -1, Seed: rng.Uint64(),
+		}
+		if rng.IntN(3) == 0 {
+			c.LClose = rng.IntN(nl)
+		}
+		runStorm(r, c)
+		if tooManyAbandoned(r) {
+			return
+		}
+	}
 }
 
 // ---------------------------------------------------------------------------
@@ -1042,7 +1614,8 @@ func concurrentCloseCampaign(o *hlib.Opts, r *hlib.Result) {
 		for k := 0; k < nconn; k++ {
 			w.spawn(0)
 			w.quiesce()
-			w.fakes[0].resolve(acceptResult{conn: &fakeConn{}})
+			w.lastFake = &fakeConn{}
+			w.fakes[0].resolve(acceptResult{conn: w.lastFake})
 			w.quiesce()
 			w.collectConns(lop{"deliver", 0})
 		}
@@ -1093,37 +1666,99 @@ func concurrentCloseCampaign(o *hlib.Opts, r *hlib.Result) {
 }
 
 // ---------------------------------------------------------------------------
-// Pipeline: real ServerDNS on loopback TCP.
+// Pipeline: real ServerDNS / ServerTLS on loopback, one or two connections.
 
-type gateHandler struct {
-	mu       sync.Mutex
-	inflight map[string]int
-	maxSeen  map[string]int
+// connStat is what the handler observes for one client connection.
+type connStat struct {
 	entered  atomic.Int64
 	exited   atomic.Int64
 	gate     chan struct{}
+	inflight int
+	maxSeen  int
+}
+
+type gateHandler struct {
+	mu    sync.Mutex
+	stats map[string]*connStat
+}
+
+func (h *gateHandler) stat(key string) (st *connStat) {
+	h.mu.Lock()
+	defer h.mu.Unlock()
+	st = h.stats[key]
+	if st == nil {
+		st = &connStat{gate: make(chan struct{})}
+		h.stats[key] = st
+	}
+
+	return st
 }
 
 func (h *gateHandler) ServeDNS(ctx context.Context, rw dnsserver.ResponseWriter, req *dns.Msg) (err error) {
-	key := rw.RemoteAddr().String()
+	st := h.stat(rw.RemoteAddr().String())
 	h.mu.Lock()
-	h.inflight[key]++
-	if h.inflight[key] > h.maxSeen[key] {
-		h.maxSeen[key] = h.inflight[key]
+	st.inflight++
+	if st.inflight > st.maxSeen {
+		st.maxSeen = st.inflight
 	}
 	h.mu.Unlock()
-	h.entered.Add(1)
+	st.entered.Add(1)
 
-	<-h.gate
+	<-st.gate
 
 	h.mu.Lock()
-	h.inflight[key]--
+	st.inflight--
 	h.mu.Unlock()
 	resp := (&dns.Msg{}).SetReply(req)
 	err = rw.WriteMsg(ctx, req, resp)
-	h.exited.Add(1)
+	st.exited.Add(1)
 
 	return err
+}
+
+// ctxCons is the request-context constructor given to the server: the harness
+// keeps every cancel function, so that "the request context of the message
+// held in Acquire expires" is an event it triggers, not a matter of time.
+type ctxCons struct {
+	mu      sync.Mutex
+	cancels []context.CancelFunc
+}
+
+func (c *ctxCons) New() (ctx context.Context, cancel context.CancelFunc) {
+	ctx, cancel = context.WithCancel(context.Background())
+	c.mu.Lock()
+	defer c.mu.Unlock()
+	c.cancels = append(c.cancels, cancel)
+
+	return ctx, cancel
+}
+
+// cancelLast cancels the context made for the message read last.
+func (c *ctxCons) cancelLast() {
+	c.mu.Lock()
+	defer c.mu.Unlock()
+	if n := len(c.cancels); n > 0 {
+		c.cancels[n-1]()
+	}
+}
+
+func (c *ctxCons) count() int {
+	c.mu.Lock()
+	defer c.mu.Unlock()
+
+	return len(c.cancels)
+}
+
+// anyGoroutineIn reports whether some goroutine has a frame containing frame.
+func anyGoroutineIn(frame string) bool {
+	buf := make([]byte, 1<<18)
+	for {
+		n := runtime.Stack(buf, true)
+		if n < len(buf) {
+			return bytes.Contains(buf[:n], []byte(frame))
+		}
+		buf = make([]byte, 2*len(buf))
+	}
 }
 
 func waitFor(cond func() bool, d time.Duration) bool {
@@ -1143,11 +1778,56 @@ func waitFor(cond func() bool, d time.Duration) bool {
 	}
 }
 
+var (
+	pipeTLSOnce sync.Once
+	pipeTLSConf *tls.Config
+)
+
+// selfSigned returns a server TLS configuration with a fresh self-signed
+// certificate.
+func selfSigned() *tls.Config {
+	pipeTLSOnce.Do(func() {
+		key, err := ecdsa.GenerateKey(elliptic.P256(), crand.Reader)
+		hlib.Must(err)
+		tmpl := &x509.Certificate{
+			SerialNumber: big.NewInt(18),
+			Subject:      pkix.Name{CommonName: "c18.example"},
+			NotBefore:    time.Now().Add(-time.Hour),
+			NotAfter:     time.Now().Add(24 * time.Hour),
+			KeyUsage:     x509.KeyUsageDigitalSignature,
+			ExtKeyUsage:  []x509.ExtKeyUsage{x509.ExtKeyUsageServerAuth},
+			DNSNames:     []string{"c18.example"},
+		}
+		der, err := x509.CreateCertificate(crand.Reader, tmpl, tmpl, &key.PublicKey, key)
+		hlib.Must(err)
+		pipeTLSConf = &tls.Config{
+			Certificates: []tls.Certificate{{Certificate: [][]byte{der}, PrivateKey: key}},
+			MinVersion:   tls.VersionTLS12,
+		}
+	})
+
+	return pipeTLSConf
+}
+
+// pipeCase is one pipeline scenario.  Ops are "q", "done", "timeout" for the
+// first connection and "q1", "done1" for the second.
+type pipeCase struct {
+	Limit int      `json:"limit"`
+	Ops   []string `json:"ops"`
+	TLS   bool     `json:"tls"`
+}
+
 func pipelineCampaign(o *hlib.Opts, r *hlib.Result, m *hlib.Model) {
 	rng := o.Rand("pipeline")
-	n := 40
+	// Props/C18.lean, example of pipeline_work_conserving: Acquire gives up on
+	// the third query; what was sent afterwards is never processed.
+	for _, tls := range []bool{false, true} {
+		runPipeCase(r, m, &pipeCase{Limit: 2, TLS: tls, Ops: []string{"q", "q", "q", "timeout", "q", "done", "done", "q"}})
+		runPipeCase(r, m, &pipeCase{Limit: 1, TLS: tls, Ops: []string{"q", "q1", "q", "q1", "done1", "done", "done", "done1"}})
+	}
+	n := 50
 	if o.Thorough() {
-		n = 300
+		n = 400
 	}
 	for i := 0; i < n; i++ {
 		limit := 1 + rng.IntN(4)
@@ -1156,7 +1836,8 @@ func pipelineCampaign(o *hlib.Opts, r *hlib.Result, m *hlib.Model) {
 		}
 		nops := 4 + rng.IntN(40)
 		var ops []string
-		if rng.IntN(4) == 0 {
+		switch rng.IntN(5) {
+		case 0:
 			// One burst (up to 64 queries), then drain.
 			burst := 1 + rng.IntN(64)
 			for k := 0; k < burst; k++ {
@@ -1165,7 +1846,40 @@ func pipelineCampaign(o *hlib.Opts, r *hlib.Result, m *hlib.Model) {
 			for k := 0; k < burst; k++ {
 				ops = append(ops, "done")
 			}
-		} else {
+		case 1:
+			// Two connections to the same server.
+			pq := 3 + rng.IntN(5)
+			for k := 0; k < nops; k++ {
+				op := "done"
+				if rng.IntN(8) < pq {
+					op = "q"
+				}
+				if rng.IntN(2) == 0 {
+					op += "1"
+				}
+				ops = append(ops, op)
+			}
+		case 2:
+			// The request context of a held message expires at some point.
+			pq := 4 + rng.IntN(4)
+			for k := 0; k < limit+1+rng.IntN(3); k++ {
+				ops = append(ops, "q")
+			}
+			for k := rng.IntN(3); k > 0; k-- {
+				ops = append(ops, "done")
+			}
+			ops = append(ops, "timeout")
+			for k := 0; k < nops; k++ {
+				switch x := rng.IntN(10); {
+				case x == 9:
+					ops = append(ops, "timeout")
+				case x < pq:
+					ops = append(ops, "q")
+				default:
+					ops = append(ops, "done")
+				}
+			}
+		default:
 			pq := 3 + rng.IntN(5)
 			for k := 0; k < nops; k++ {
 				if rng.IntN(8) < pq {
@@ -1175,31 +1889,76 @@ func pipelineCampaign(o *hlib.Opts, r *hlib.Result, m *hlib.Model) {
 				}
 			}
 		}
-		runPipeCase(r, m, limit, ops)
+		runPipeCase(r, m, &pipeCase{Limit: limit, Ops: ops, TLS: rng.IntN(3) == 0})
 	}
 }
 
-func runPipeCase(r *hlib.Result, m *hlib.Model, limit int, ops []string) {
-	h := &gateHandler{inflight: map[string]int{}, maxSeen: map[string]int{}, gate: make(chan struct{})}
-	srv := dnsserver.NewServerDNS(dnsserver.ConfigDNS{
+// pipeClient is the harness's side of one connection.
+type pipeClient struct {
+	conn    net.Conn
+	st      *connStat
+	sent    int
+	dropped int
+	dead    bool
+	lines   []string
+	want    []string
+}
+
+// observed is (handlers running, messages sent and not yet handed to a handler
+// nor dropped).
+func (pc *pipeClient) observed() string {
+	e, x := pc.st.entered.Load(), pc.st.exited.Load()
+
+	return fmt.Sprintf("%d %d", e-x, int64(pc.sent-pc.dropped)-e)
+}
+
+func runPipeCase(r *hlib.Result, m *hlib.Model, c *pipeCase) {
+	limit := c.Limit
+	h := &gateHandler{stats: map[string]*connStat{}}
+	cc := &ctxCons{}
+	conf := dnsserver.ConfigDNS{
 		ConfigBase: dnsserver.ConfigBase{
 			Name: "c18-pipe", Addr: "127.0.0.1:0", Network: dnsserver.NetworkTCP, Handler: h,
+			RequestContext: cc,
 		},
 		MaxPipelineEnabled: true,
 		MaxPipelineCount:   uint(limit),
 		ReadTimeout:        time.Minute,
 		TCPIdleTimeout:     time.Minute,
-	})
+	}
+	var srv dnsserver.Server
+	if c.TLS {
+		srv = dnsserver.NewServerTLS(dnsserver.ConfigTLS{ConfigDNS: conf, TLSConfig: selfSigned()})
+	} else {
+		srv = dnsserver.NewServerDNS(conf)
+	}
 	ctx := context.Background()
 	hlib.Must(srv.Start(ctx))
-	conn, err := net.Dial("tcp", srv.LocalTCPAddr().String())
-	hlib.Must(err)
-	go func() { _, _ = io.Copy(io.Discard, conn) }()
+	nconn := 1
+	for _, op := range c.Ops {
+		if strings.HasSuffix(op, "1") {
+			nconn = 2
+		}
+	}
+	clients := make([]*pipeClient, nconn)
+	for i := range clients {
+		var conn net.Conn
+		var err error
+		if c.TLS {
+			conn, err = tls.Dial("tcp", srv.LocalTCPAddr().String(), &tls.Config{InsecureSkipVerify: true})
+		} else {
+			conn, err = net.Dial("tcp", srv.LocalTCPAddr().String())
+		}
+		hlib.Must(err)
+		go func() { _, _ = io.Copy(io.Discard, conn) }()
+		clients[i] = &pipeClient{
+			conn: conn, st: h.stat(conn.LocalAddr().String()),
+			lines: []string{fmt.Sprintf("pipe %d", limit)}, want: []string{"0 0"},
+		}
+	}
 
-	lines := []string{fmt.Sprintf("pipe %d", limit)}
-	want := []string{"0 0"}
-	sent, blockedOnce := 0, false
-	replay := map[string]any{"campaign": "pipeline", "limit": limit, "ops": ops}
+	blockedOnce, timedOut := false, false
+	replay := map[string]any{"campaign": "pipeline", "pipe": c}
 	query := func(id int) []byte {
 		q := (&dns.Msg{}).SetQuestion("c18.example.", dns.TypeA)
 		q.Id = uint16(id)
@@ -1212,18 +1971,30 @@ func runPipeCase(r *hlib.Result, m *hlib.Model, limit int, ops []string) {
 		return out
 	}
 	stuck := ""
-	for j, op := range ops {
-		entered, exited := h.entered.Load(), h.exited.Load()
+	for j, op := range c.Ops {
+		ci := 0
+		if strings.HasSuffix(op, "1") {
+			ci, op = 1, strings.TrimSuffix(op, "1")
+		}
+		pc := clients[ci]
+		others := make([]string, nconn)
+		for i, o := range clients {
+			others[i] = o.observed()
+		}
+		entered, exited := pc.st.entered.Load(), pc.st.exited.Load()
 		inflight := int(entered - exited)
-		waiting := sent - int(entered)
+		waiting := pc.sent - pc.dropped - int(entered)
 		switch op {
 		case "q":
-			_, err = conn.Write(query(sent))
-			hlib.Must(err)
-			sent++
-			if inflight < limit && waiting == 0 {
-				if !waitFor(func() bool { return h.entered.Load() == entered+1 }, 10*time.Second) {
-					stuck = fmt.Sprintf("op %d: query %d never reached the handler (in flight %d < limit %d)", j, sent, inflight, limit)
+			// Once the read loop is gone the server closes the connection as
+			// soon as the last handler has finished; writes may then fail.
+			if _, err := pc.conn.Write(query(pc.sent)); err != nil && !pc.dead {
+				hlib.Must(err)
+			}
+			pc.sent++
+			if inflight < limit && waiting == 0 && !pc.dead {
+				if !waitFor(func() bool { return pc.st.entered.Load() == entered+1 }, 10*time.Second) {
+					stuck = fmt.Sprintf("op %d: query %d never reached the handler (in flight %d < limit %d)", j, pc.sent, inflight, limit)
 				}
 			} else {
 				blockedOnce = true
@@ -1235,70 +2006,113 @@ func runPipeCase(r *hlib.Result, m *hlib.Model, limit int, ops []string) {
 			if inflight == 0 {
 				break
 			}
-			h.gate <- struct{}{}
-			if !waitFor(func() bool { return h.exited.Load() == exited+1 }, 10*time.Second) {
+			pc.st.gate <- struct{}{}
+			if !waitFor(func() bool { return pc.st.exited.Load() == exited+1 }, 10*time.Second) {
 				stuck = fmt.Sprintf("op %d: released handler never finished", j)
 			}
-			if waiting > 0 && stuck == "" {
-				if !waitFor(func() bool { return h.entered.Load() == entered+1 }, 10*time.Second) {
+			if waiting > 0 && !pc.dead && stuck == "" {
+				if !waitFor(func() bool { return pc.st.entered.Load() == entered+1 }, 10*time.Second) {
 					stuck = fmt.Sprintf("op %d: a worker finished but none of %d waiting queries started (limit %d)", j, waiting, limit)
 				}
 			}
+		case "timeout":
+			// Enabled only when the reader holds a message in Acquire: all of
+			// limit handlers run and something was sent after them.  The server
+			// has then made one context per message it has read.
+			if nconn != 1 || pc.dead || inflight < limit || waiting == 0 {
+				break
+			}
+			if !waitFor(func() bool { return cc.count() == int(entered)+pc.dropped+1 }, 10*time.Second) {
+				stuck = fmt.Sprintf("op %d: the reader did not pick up the next message while the semaphore was full", j)
+
+				break
+			}
+			cc.cancelLast()
+			pc.dead, timedOut = true, true
+			pc.dropped++
+			// The reader must leave Acquire with the context's error; only one
+			// server is alive at a time, so no goroutine may stay in there.
+			if !waitFor(func() bool { return !anyGoroutineIn("ChanSemaphore).Acquire") }, 10*time.Second) {
+				stuck = fmt.Sprintf("op %d: the reader stayed in Acquire after its request context was cancelled", j)
+			}
 		}
-		lines = append(lines, op)
-		e, x := h.entered.Load(), h.exited.Load()
-		want = append(want, fmt.Sprintf("%d %d", e-x, int64(sent)-e))
+		pc.lines = append(pc.lines, op)
+		pc.want = append(pc.want, pc.observed())
+		// A connection's pipeline is its own: nothing changes for the other one.
+		for i, o := range clients {
+			if i != ci && o.observed() != others[i] && stuck == "" {
+				stuck = fmt.Sprintf("op %d (%s on connection %d) changed the state of connection %d from %q to %q",
+					j, op, ci, i, others[i], o.observed())
+			}
+		}
 		if stuck != "" {
 			break
 		}
 	}
 	// Oracle: never more than limit handlers of one connection at once.
 	h.mu.Lock()
-	for key, mx := range h.maxSeen {
-		if mx > limit {
+	for _, st := range h.stats {
+		if st.maxSeen > limit {
+			proto := "tcp"
+			if c.TLS {
+				proto = "tls"
+			}
 			r.Violate("pipeline-limit-exceeded", fmt.Sprintf(
-				"connection %s: %d queries were processed at the same time, MaxPipelineCount = %d", "tcp", mx, limit), replay)
+				"connection %s: %d queries were processed at the same time, MaxPipelineCount = %d", proto, st.maxSeen, limit), replay)
 		}
-		_ = key
 	}
 	h.mu.Unlock()
 	if stuck != "" {
 		r.Disagree("pipeline", stuck, replay)
 	}
-	m.ResetLog()
-	ans := m.Batch(lines)
-	r.ModelOps += len(lines)
-	for j := range lines {
-		f := strings.Fields(ans[j])
-		got := ans[j]
-		if len(f) == 3 {
-			var a, b, c int
-			_, _ = fmt.Sscan(ans[j], &a, &b, &c)
-			got = fmt.Sprintf("%d %d", a, b+c)
-		}
-		if got != want[j] {
-			r.Disagree("pipeline", fmt.Sprintf("after op %d %q: real (inflight waiting)=%q model %q, limit %d",
-				j, lines[j], want[j], got, limit), replay)
+	for ci, pc := range clients {
+		m.ResetLog()
+		ans := m.Batch(pc.lines)
+		r.ModelOps += len(pc.lines)
+		for j := range pc.lines {
+			f := strings.Fields(ans[j])
+			got := ans[j]
+			if len(f) >= 3 {
+				// running, blocked, queued (tok= and dead= follow)
+				var a, b, q int
+				_, _ = fmt.Sscan(strings.Join(f[:3], " "), &a, &b, &q)
+				got = fmt.Sprintf("%d %d", a, b+q)
+			}
+			if got != pc.want[j] {
+				r.Disagree("pipeline", fmt.Sprintf("connection %d after its op %d %q: real (running waiting)=%q model %q, limit %d",
+					ci, j, pc.lines[j], pc.want[j], got, limit), replay)
 
-			break
+				break
+			}
 		}
 	}
 	// Drain and stop.
-	close(h.gate)
-	_ = conn.Close()
+	for _, pc := range clients {
+		close(pc.st.gate)
+		_ = pc.conn.Close()
+	}
 	sctx, cancel := context.WithTimeout(ctx, 5*time.Second)
 	_ = srv.Shutdown(sctx)
 	cancel()
 
-	r.Case(fmt.Sprintf("pipe;%d;%s", limit, strings.Join(ops, "")), blockedOnce)
+	r.Case(fmt.Sprintf("pipe;%d;%v;%s", limit, c.TLS, strings.Join(c.Ops, ",")), blockedOnce)
 	r.Traces++
 	r.Count("pipeline.cases")
 	r.Count(fmt.Sprintf("pipeline.limit=%d", min(limit, 5)))
+	if c.TLS {
+		r.Count("pipeline.tls")
+	}
+	if nconn == 2 {
+		r.Count("pipeline.two_connections")
+	}
+	if timedOut {
+		r.Count("pipeline.acquire_gave_up")
+	}
 	if blockedOnce {
 		r.Count("pipeline.reader_blocked")
-		r.Sample(map[string]any{"campaign": "pipeline", "limit": limit, "ops": truncate(lines, 14)}, 6)
+		r.Sample(map[string]any{"campaign": "pipeline", "limit": limit, "tls": c.TLS, "ops": truncate(c.Ops, 14)}, 6)
 	}
-	if len(ops) > 40 {
+	if len(c.Ops) > 40 {
 		r.Count("pipeline.burst>40")
 	}
 }
@@ -1310,18 +2124,27 @@ func replay(o *hlib.Opts, r *hlib.Result, m *hlib.Model) {
 	hlib.Must(err)
 	var f struct {
 		Replay struct {
-			Campaign string   `json:"campaign"`
-			Case     *limCase `json:"case"`
-			Limit    int      `json:"limit"`
-			Ops      []string `json:"ops"`
+			Campaign string     `json:"campaign"`
+			Case     *limCase   `json:"case"`
+			Win      *winCase   `json:"win"`
+			Storm    *stormCase `json:"storm"`
+			Pipe     *pipeCase  `json:"pipe"`
 		} `json:"replay"`
 	}
 	hlib.Must(json.Unmarshal(b, &f))
 	switch f.Replay.Campaign {
 	case "limiter":
 		checkLimCase(r, m, f.Replay.Case, nil, "limiter.replay")
+	case "window":
+		for i := 0; i < 5; i++ {
+			runWindowCase(r, m, f.Replay.Win)
+		}
+	case "storm":
+		for i := 0; i < 20; i++ {
+			runStorm(r, f.Replay.Storm)
+		}
 	case "pipeline":
-		runPipeCase(r, m, f.Replay.Limit, f.Replay.Ops)
+		runPipeCase(r, m, f.Replay.Pipe)
 	default:
 		concurrentCloseCampaign(o, r)
 	}
